@@ -159,7 +159,7 @@ REGISTRY["C17"] = {
 
 REGISTRY["C04"] = {
     "engine": "engine_ser",
-    "theorems": [(A + "SerSchema", "Api.C04_keys"), (A + "SerSchema", "Api.omitted_skippable"), (A + "SerSchema", "Api.serFields_props"),
+    "theorems": [(A + "MetaChainThm", "Api.Meta.outermost_wins"), (A + "MetaChainThm", "Api.Meta.chain_source"), (A + "SerSchema", "Api.C04_keys"), (A + "SerSchema", "Api.omitted_skippable"), (A + "SerSchema", "Api.serFields_props"),
                  (A + "SerJsonThm", "Api.C04_json_only"), (A + "SerJsonThm", "Api.ser_pure"), (A + "SerJsonThm", "Api.C04_nonstring_keys_counterexample"),
                  (A + "OmitSrcThm", "Api.omit_matches_source"), (A + "OmitSrcThm", "Api.serFieldStep_matches_source"), (A + "OmitSrcThm", "Api.simple_field_matches_source"),
                  (A + "OmitSrcThm", "Api.omit_atoms_covered"), (A + "OmitSrcThm", "Api.other_strategies_always_write")],
@@ -194,7 +194,7 @@ REGISTRY["C09"] = {
 
 REGISTRY["C11"] = {
     "engine": "engine_alias",
-    "theorems": [(A + "Alias", "Api.Alias.C11_all_views"), (A + "Alias", "Api.Alias.C11_views"), (A + "Alias", "Api.Alias.C11_views_agree"), (A + "Alias", "Api.Alias.C11_dependentRequired_partial"),
+    "theorems": [(A + "MetaChainThm", "Api.Meta.outermost_wins"), (A + "MetaChainThm", "Api.Meta.field_metadata_wins"), (A + "MetaChainThm", "Api.Meta.chain_source"), (A + "Alias", "Api.Alias.C11_all_views"), (A + "Alias", "Api.Alias.C11_views"), (A + "Alias", "Api.Alias.C11_views_agree"), (A + "Alias", "Api.Alias.C11_dependentRequired_partial"),
                  (A + "Alias", "Api.Alias.C11_dependentRequired_counterexample"), (A + "Alias", "Api.Alias.C11_graphql_counterexample")],
     "model_is_spec": True,
     "partial": "every view, dependentRequired included since the repair of row 23, lists exactly the external names (for every aliaser function); "
